@@ -307,6 +307,14 @@ def analyse_call(ob, rec=None):
                     r['alt'].append((nm.upper(), np.array(W), np.array(Q)))
                 except Exception:
                     r['unobservable'] = True
+        if not isinstance(ob['out'], str):
+            # conditioning from the module output (the indicator is invariant under scaling of the vectors)
+            Bd = None if B is None else todense(B)
+            nB = 1.0 if Bd is None else max(np.linalg.norm(Bd, 2), 1e-300)
+            for i in range(ob['out'][1].shape[1]):
+                q = ob['out'][1][:, i]
+                v = q @ (q if Bd is None else Bd @ q)
+                r['kappa'] = max(r['kappa'], (np.linalg.norm(q) ** 2 * nB / abs(v)) if abs(v) > 0 else np.inf)
         return r
     c = calls[0]
     r['fun'] = c['name'].upper()
@@ -445,7 +453,7 @@ def emit_case(spec, obs):
             else:
                 outl = f'(Ok ({em.vec(out[0])}, {em.mat(out[1])}))'
                 tW = tol_lit(np.abs(out[0]).max() if out[0].size else 1.0, 1e-9)
-                tQ = tol_lit((np.abs(out[1]).max() if out[1].size else 1.0) * max(1.0, an['kappa'] / 10), 1e-9)
+                tQ = tol_lit((np.abs(out[1]).max() if out[1].size else 1.0) * max(1.0, min(an['kappa'], 1e6) / 10), 1e-9)
             strict = '[' + '; '.join(vlib.blit(b) for b in strict_l) + ']'
             tC = tol_lit(scC, 1e-8)
         alt = '[' + '; '.join(f'({nm}, ({em.vec(w)}, {em.mat(q)}))' for nm, w, q in an['alt']) + ']' if level == 2 else '[]'
@@ -1008,8 +1016,14 @@ def run(ctx):
                 sigma_now = o['value']
                 continue
             ob['an'] = analyse_call(ob, rec)
-            if ob['an']['kappa'] > KAPPA_MAX and spec['stream'] not in ('malformed', 'corpus'):
-                illcond = True
+            if ob['an']['kappa'] > KAPPA_MAX:
+                if spec['stream'] not in ('malformed', 'corpus'):
+                    illcond = True
+                elif not isinstance(ob['out'], str):
+                    # (nearly) isotropic vectors that happen not to trip the assertion: the normalisation is ill-conditioned,
+                    # only the dispatch is compared
+                    o['level'] = 1
+                    ctx.count('ill-conditioned normalisation in malformed/corpus stream: dispatch only')
             if ob['an']['rawW'] is not None:
                 nval += 1
         if illcond:
@@ -1019,7 +1033,8 @@ def run(ctx):
                                                  keys_ambiguous(spec['sort'], ob['an']['rawW'], ob['an']['rawQ']) for ob in obs):
             ctx.count('rejected:tied sorting keys (order unspecified)')
             continue
-        if any(ob is not None and ob['an']['unobservable'] for ob in obs):
+        if any(ob is not None and (ob['an']['unobservable'] or (not ob['an']['recorded'] and o.get('level', 0) == 1))
+               for o, ob in zip(spec['ops'], obs)):
             ctx.count('skipped:library call neither recorded nor reproducible')
             continue
         # expected outcome recorded in corpus entries
@@ -1029,11 +1044,17 @@ def run(ctx):
             if got != spec['expect']:
                 ctx.violation('correspondence', 'EigenSolve._response', 'corpus expectation', spec['name'],
                               dict(spec=spec_public(spec)), expected=spec['expect'], got=got)
-        expr, info = emit_case(spec, obs)
-        (big if len(expr) > 20000 else small).append((expr, spec))
+        try:
+            expr, info = emit_case(spec, obs)
+        except Exception as e:
+            ctx.violation('correspondence', 'harness', 'case can be written', spec.get('stream', '?'),
+                          dict(spec=spec_public(spec), error=repr(e)), theorem='harness')
+            expr, info = None, dict(cplx=False)
         n = spec.get('n', 0) or len(todense(obs[0]['A'])) if obs and obs[0] else 0
-        ctx.case((spec['stream'], spec['sort'], expr[:20000]), nontrivial=(n >= 2),
-                 sample=dict(name=spec['name'], cls=spec.get('cls'), sort=spec['sort'], kwargs=spec['kwargs'], coq=expr[:300]))
+        if expr is not None:
+            (big if len(expr) > 20000 else small).append((expr, spec))
+            ctx.case((spec['stream'], spec['sort'], expr[:20000]), nontrivial=(n >= 2),
+                     sample=dict(name=spec['name'], cls=spec.get('cls'), sort=spec['sort'], kwargs=spec['kwargs'], coq=expr[:300]))
         ctx.count('stream:' + spec['stream'])
         ctx.count('class:' + str(spec.get('cls')))
         ctx.count('sort:' + spec['sort'][0])
@@ -1055,7 +1076,11 @@ def run(ctx):
                 ctx.count('columns compared up to sign', sum(1 for b in an['strict'] if not b))
             if not an['recorded'] and not isinstance(ob['out'], str):
                 ctx.count('library call not recorded (fallback: idempotence)')
-            oracle_call(ctx, rec, spec, o, ob, sigma_now, nmodes_now)
+            try:
+                oracle_call(ctx, rec, spec, o, ob, sigma_now, nmodes_now)
+            except Exception as e:
+                ctx.violation('correspondence', 'harness', 'oracle runs', spec.get('stream', '?'),
+                              dict(spec=spec_public(spec), error=repr(e)), theorem='harness')
     ctx.oracle_validation['library result satisfies A q = lambda M q (re-checked in Coq at 1e-8)'] = nval
 
     allc = small + big
